@@ -25,12 +25,17 @@ theorem lookup_filter_self (r : Registry) (k : String) :
 
 theorem lookup_insert (r : Registry) (k k' : String) (p : Plugin) :
     lookup (insert r k p) k' = if k = k' then some p else lookup r k' := by
-  unfold insert
-  by_cases h : k = k'
-  · simp [lookup, h]
-  · have h' : k' ≠ k := fun e => h e.symm
-    have := lookup_filter_ne r k k' h'
-    simp_all [lookup]
+  induction r with
+  | nil => simp [insert, lookup]
+  | cons e rest ih =>
+    obtain ⟨ke, pe⟩ := e
+    by_cases hk : ke = k
+    · subst hk
+      by_cases h : ke = k' <;> simp [insert, lookup, h]
+    · by_cases h : ke = k'
+      · subst h
+        simp [insert, lookup, hk, Ne.symm hk]
+      · simp [insert, lookup, hk, h, ih]
 
 theorem hasDot_fullName (p : Plugin) : hasDot p.fullName = true := by
   simp [hasDot, Plugin.fullName]
